@@ -435,39 +435,52 @@ def describe(h):
     return '; '.join(out)
 
 
-def concurrent_add(ctx):
+def concurrent_add(ctx, flavour='cleanup'):
     """Two handle clones call add_signal while the other is paused at every point (deterministic
-    scheduler over the shim's mutex/atomic operations); afterwards every owner is dropped: no
-    registration of the instance may survive (no wake-up on a later dispatch) and its write end must
-    be closed.  This is the concurrent half of the clean-up sentence (and of C01's 'removal by
-    dropping the object that owns it')."""
+    scheduler over the shim's mutex/atomic operations).  flavour 'cleanup' (C12, C01): afterwards
+    every owner is dropped: no registration of the instance may survive (no wake-up on a later
+    dispatch) and its write end must be closed.  flavour 'records' (C10): with the owners alive
+    one delivery of the signal is dispatched: it may wake the consumer once per registration made
+    (one) and pending() may yield at most one record for it - SignalOnly and WithRawSiginfo."""
     cases = []
-    for s1, s2 in ((10, 10), (10, 12)):
-        for first in (0, 1):
-            for i in range(0, 70 if ctx.tier == 'quick' else 140):
-                cases.append((s1, s2, [first] * i + [1 - first] * 150 + [first] * 150))
-    inp = '\n'.join('%d %d %d %s' % (a, b, len(sc), ' '.join(map(str, sc))) for a, b, sc in cases) + '\n'
+    for raw in ((False,) if flavour == 'cleanup' else (True, False)):
+        for s1, s2 in ((10, 10), (10, 12)):
+            for first in (0, 1):
+                for i in range(0, 70 if ctx.tier == 'quick' else 140):
+                    cases.append((raw, s1, s2, [first] * i + [1 - first] * 150 + [first] * 150))
+    inp = '\n'.join('%s%d %d %d %s' % ('R ' if raw else '', a, b, len(sc), ' '.join(map(str, sc))) for raw, a, b, sc in cases) + '\n'
     rc, out, _ = common.sh([common.bin_path('ls_addsig')], input=inp.encode(), timeout=600)
     lines = out.split('\n')
     bad_run = 0
-    for (a, b, sc), l in zip(cases, lines):
+    for (raw, a, b, sc), l in zip(cases, lines):
         ctx.evaluations += 1
         p = l.split()
-        if len(p) != 6:
+        if len(p) != 8:
             bad_run += 1
             continue
-        ok1, ok2, fdopen, wakes, stuck, pan = map(int, p)
+        ok1, ok2, fdopen, wakes, stuck, pan, wakes_alive, records_alive = map(int, p)
         split = next((k for k, x in enumerate(sc) if x != sc[0]), 0)
-        ctx.distinct.add(('concurrent-add', a == b, sc[0], split))
-        key = {'concurrent_add': [a, b], 'first': sc[0], 'steps_before_switch': split}
-        case = {'signals': [a, b], 'schedule': sc[:split + 3], 'observed': l, 'replay': 'echo "%d %d %d %s" | harness/target/debug/ls_addsig' % (a, b, len(sc), ' '.join(map(str, sc)))}
-        if wakes or fdopen:
-            ctx.violation(key, 'concurrent add_signal(%d) / add_signal(%d) on two handle clones (switch after %d steps of the first): after every owner was dropped '
-                          '%d wake-up(s) still happen on a later dispatch and the write end is %s - a registration of the instance survived its owners'
-                          % (a, b, split, wakes, 'still open' if fdopen else 'closed'), case)
-        elif stuck or pan or ok1 != 1 or ok2 != 1:
-            ctx.violation(key, 'concurrent add_signal calls did not both succeed: results %s' % l, case)
-    ctx.correspondence('concurrent add_signal probe ran (ls_addsig)', bad_run == 0 and rc == 0, out[-500:] if bad_run else None)
+        ctx.distinct.add(('concurrent-add', raw, a == b, sc[0], split))
+        key = {'concurrent_add': [a, b], 'first': sc[0], 'steps_before_switch': split, 'raw': raw}
+        case = {'signals': [a, b], 'exfiltrator': 'WithRawSiginfo' if raw else 'SignalOnly', 'schedule': sc[:split + 3], 'observed': l,
+                'replay': 'echo "%s%d %d %d %s" | harness/target/debug/ls_addsig' % ('R ' if raw else '', a, b, len(sc), ' '.join(map(str, sc)))}
+        who = 'concurrent add_signal(%d) / add_signal(%d) on two handle clones (%s, switch after %d steps of the first)' % (
+            a, b, 'WithRawSiginfo' if raw else 'SignalOnly', split)
+        if flavour == 'cleanup':
+            if wakes or fdopen:
+                ctx.violation(key, '%s: after every owner was dropped %d wake-up(s) still happen on a later dispatch and the write end is %s - a registration '
+                              'of the instance survived its owners' % (who, wakes, 'still open' if fdopen else 'closed'), case)
+            elif stuck or pan or ok1 != 1 or ok2 != 1:
+                ctx.violation(key, 'concurrent add_signal calls did not both succeed: results %s' % l, case)
+        else:
+            if stuck or pan or ok1 != 1 or ok2 != 1:
+                ctx.violation(key, '%s: the calls did not both succeed: results %s' % (who, l), case)
+            elif records_alive > 1 or wakes_alive > 1:
+                ctx.violation(key, '%s: ONE delivery of signal %d afterwards runs %d action(s) of this iterator and pending() yields %d record(s) for it'
+                              % (who, a, wakes_alive, records_alive), case)
+            elif records_alive != 1:
+                ctx.violation(key, '%s: one delivery of signal %d afterwards yields %d records' % (who, a, records_alive), case)
+    ctx.correspondence('concurrent add_signal probe ran (ls_addsig, %s)' % flavour, bad_run == 0 and rc == 0, out[-500:] if bad_run else None)
     ctx.coverage['concurrent_add_cases'] = len(cases)
 
 
